@@ -152,6 +152,15 @@ CHECKS.update({
    note="writer opcode table (nl-opcodes.h) paired by name with the reader's expression kinds; segment order not compared"),
 })
 
+CHECKS.update({
+ "C08": dict(level="exploration", engine="rapidcheck", design="3/C08",
+   technique="rapidcheck-generated matrix models -> mp::NLModel -> NLSolver::LoadModel -> repository NL reader (mp::Problem + recording handler), compared up to the reported permutation "
+             "with rows/objective judged as functions at test points; generated .sol -> NLSolver::ReadSolution compared in the caller's order",
+   text="About 64000 generated models per quick run: column type / nonlinearity patterns, bounds of all kinds, sparse rows, Hessians in both declared formats with diagonal-only, "
+        "off-diagonal-only, duplicate and one-triangle entries, warm starts, suffixes of all kinds, names x {text, binary} x {comments}, plus the solution way back.",
+   note="objective semantics taken from NLModel::ComputeObjValue's documentation (0.5 x'Qx over the given entries)"),
+})
+
 NOT_APPLICABLE = []
 
 def main():
